@@ -256,6 +256,87 @@ def check_c04(tier, seed, work):
     return cov, v1 + v2
 
 
+HELPER_CFG = """SPECIFICATION Spec
+CONSTANTS
+  Keys = {%(keys)s}
+  Pays = {"v1", "v2"}
+VIEW View
+INVARIANT TypeOK
+INVARIANT Consistent
+INVARIANT Refines
+%(extra)sPROPERTY CallLaws
+ACTION_CONSTRAINT Emit
+"""
+
+HELPER_TRACE_CFG = """SPECIFICATION TraceSpec
+CONSTANTS
+  Keys = {"K1", "K2", "K3", "K1.K1", "K1.K2", "K2.K1"}
+  Pays = {"v1", "v2"}
+POSTCONDITION TraceAccepted
+CHECK_DEADLOCK FALSE
+"""
+
+
+def check_helpers(prop, tier, seed, work, kind):
+    """C15 / C34: the OrderedMap / KeyedList state machines. TLC checks the implementation-shaped
+    model against the reference map and emits its complete state graph; every path of bounded
+    length is executed on the generated helpers of every list of the corpus (spec -> code), and
+    traces of a model-independent random driver are validated by TLC (code -> spec)."""
+    cfgs = ["us", "cw"] if tier == "quick" else ["us", "uw", "cs", "cw", "co"]
+    h, bindir = vf.prepare(work, cfgs)
+    module = "OrderedMap" if kind == "omap" else "KeyedList"
+    extra = "INVARIANT RefUnique\n" if kind == "omap" else ""
+    states = trans = 0
+    results = []
+    rejections = []
+    ntr = nev = 0
+    for name, keys in (("single", ["K1", "K2", "K3"]), ("multi", ["K1.K1", "K1.K2", "K2.K1"])):
+        mc = vf.run_tlc(work, module, HELPER_CFG % dict(keys=q(keys), extra=extra), tag="mc" + name, workers=1, timeout=900)
+        states += mc["distinct"]
+        trans += mc["states"]
+        rec = os.path.join(work, "trace-%s.ndjson" % name)
+        depth = {"quick": 3, "thorough": 4}[tier]
+        args = ["-kind", kind, "-in", mc["out"], "-seed", str(seed), "-prop", prop, "-pkgs", ",".join(cfgs), "-depth", str(depth),
+                "-walks", "10" if tier == "quick" else "100", "-walklen", "30", "-record", rec,
+                "-traces", "4" if tier == "quick" else "20"]
+        if tier == "quick":
+            args += ["-limit", "2"]
+        r = run_replay(bindir, h, "helpers", args, work, name)
+        if r["evaluated"] == 0:
+            raise Infra("replay of %s/%s evaluated nothing" % (kind, name))
+        results.append(r)
+        n, ev, rej = vf.validate_traces(work, "TraceOrderedMap" if kind == "omap" else "TraceKeyedList", HELPER_TRACE_CFG, rec, "tv" + name)
+        ntr += n
+        nev += ev
+        rejections += rej
+    tot = merge_results(results)
+    violations = tot["violations"]
+    for rj in rejections:
+        ev = rj["event"]
+        sig = dict(rj["meta"])
+        sig.pop("pkg", None); sig.pop("variant", None)
+        sig.update(conjunct="trace-rejected", op=ev["op"])
+        if ev.get("k") == "nil":
+            sig["nilkey"] = "true"
+        violations.append(dict(property=prop, sig=sig,
+                               detail="[%s/%s %s] TLC rejects recorded event %d of a random-driver trace: %s" % (
+                                   rj["meta"].get("pkg"), rj["meta"].get("variant"), rj["meta"].get("list"), rj["index"], json.dumps(ev)),
+                               case=dict(sub="trace", kind=kind, trace=rj["trace"])))
+    for d in tot["drift"][:20]:
+        log("SPEC-DRIFT:", d)
+    cov = dict(states=states, transitions=trans, traces_validated_against_impl=tot["evaluated"] + nev,
+               samples=tot["samples"][:4] or [dict(note="paths are enumerated from the emitted graph; see counters")],
+               exhaustive=True, path_length_bound=depth, counters=tot["counters"], configurations=cfgs,
+               recorded_traces=ntr, recorded_events_accepted=nev, recorded_traces_rejected=len(rejections), spec_drift=tot["drift"][:20],
+               explanation="TLC checks %s.tla (implementation-shaped keys/valueMap state against the reference map, every call law) "
+               "for 3 single keys and 3 two-part keys and emits the complete state graph; all call sequences of length <= %d over the "
+               "mutating calls are executed on the generated helpers of the corpus lists (every key type), with every read-only call "
+               "executed and checked in every state reached, return values and internal state compared after every call%s; "
+               "random-driver traces of the real code are validated by TLC against Trace%s.tla." % (
+                   module, depth, "; list order re-checked after JSON, gNMI and DeepCopy round trips" if kind == "omap" else "", module))
+    return cov, violations
+
+
 PIPELINES = {
     "C10": lambda tier, seed, work: check_tree("C10", tier, seed, work, "set,setll", ["SetGetFrame"]),
     "C12": lambda tier, seed, work: check_tree("C12", tier, seed, work, "delete", ["DeleteExact"]),
@@ -267,12 +348,43 @@ PIPELINES = {
     "C05": lambda tier, seed, work: check_pairs("C05", tier, seed, work, "c05", ["MergeLaws"]),
     "C04": check_c04,
     "C13": lambda tier, seed, work: check_gnmiset("C13", tier, seed, work, "setreq", ["SetSemantics"]),
+    "C15": lambda tier, seed, work: check_helpers("C15", tier, seed, work, "omap"),
+    "C34": lambda tier, seed, work: check_helpers("C34", tier, seed, work, "klist"),
     "C31": lambda tier, seed, work: check_gnmiset("C31", tier, seed, work, "unmarshal,unmarshal-extra,unmarshal-extra-ignored", ["MergeFrame"]),
 }
 
 ASSUME = ["the independent projector/builder in harness/internal/abs (reflection over struct tags) is correct; it is self-tested on every case (Project(Build(t)) = t)",
           "TLC and the TLA+ semantics of the specification",
           "bounded slice: 2 abstract values, 2 keys per list; concretised over the corpus variants"]
+
+
+def replay_case(prop, path, work):
+    """Re-executes one stored violation (evidence/replay/<id>-<sig>.json) on the current tree:
+    exit 1 with the VIOLATION line if it reproduces, 0 if it does not."""
+    v = json.load(open(path))
+    case = v["case"]
+    sub = case.get("sub")
+    if sub in (None, "trace", "tlc"):
+        log("case of kind %r is re-checked by running the check itself" % sub)
+        print(json.dumps(v, indent=1)[:4000])
+        return 2
+    pkg = case.get("pkg")
+    cfgs = [pkg] if pkg in vf.CFGS else ["us", "cw"]
+    h, bindir = vf.prepare(work, cfgs, cmds=(case.get("cmd", "replay"),))
+    cf = os.path.join(work, "case.json")
+    json.dump(case, open(cf, "w"))
+    args = ["-case", cf, "-prop", prop, "-pkgs", ",".join(cfgs)]
+    for k, flag in (("mode", "-modes"), ("kind", "-kind")):
+        if case.get(k):
+            args += [flag, case[k]]
+    r = run_replay(bindir, h, sub, args, work, "case")
+    vs = [x for x in (r.get("violations") or []) if x["property"] == prop]
+    for x in vs:
+        print("VIOLATION property=%s replay=%s" % (prop, path))
+        print("  " + x["detail"][:600])
+    if not vs:
+        print("not reproduced on the current tree")
+    return 1 if vs else 0
 
 
 def main():
@@ -289,6 +401,9 @@ def main():
     try:
         if a.prop not in PIPELINES:
             raise Infra("no check for %s" % a.prop)
+        if a.replay:
+            rc = replay_case(a.prop, a.replay, work)
+            return
         cov, violations = PIPELINES[a.prop](a.tier, seed, work)
         rc = vf.finish(a.prop, a.tier, seed, t0, cov, violations, ASSUME)
     except Infra as e:
@@ -298,6 +413,9 @@ def main():
         traceback.print_exc()
         rc = 2
     finally:
+        if a.replay:
+            shutil.rmtree(work, ignore_errors=True)
+            sys.exit(rc)
         if not a.keep:
             shutil.rmtree(work, ignore_errors=True)
     log("%s %s: exit %d in %.1fs" % (a.prop, a.tier, rc, time.time() - t0))
